@@ -1,7 +1,7 @@
 #!/bin/bash
 # tools/verify_seed.sh <seed-dir>...   confirms each seeded change in a scratch worktree:
 # applies, builds, existing suite passes with it, demo fails with it and passes without it.
-WT=/tmp/wt/verify
+WT=${WT:-/tmp/wt/verify}
 if [ ! -d $WT ]; then
   git -C /repo worktree add -q --detach $WT HEAD || exit 3
   mkdir -p $WT/target && cp -r /repo/target/debug $WT/target/debug
@@ -16,9 +16,9 @@ for D in "${ARGS[@]}"; do
   # demo without patch
   if [ -f $D/demo_test.rs ]; then
     cp $D/demo_test.rs tests/demo_test.rs
-    cargo test --offline --test demo_test >/tmp/wt/verify-$N-clean.log 2>&1 && R="$R demo-clean=PASS" || R="$R demo-clean=FAIL"
+    cargo test --offline --test demo_test >$WT-$N-clean.log 2>&1 && R="$R demo-clean=PASS" || R="$R demo-clean=FAIL"
     git apply $P
-    cargo test --offline --test demo_test >/tmp/wt/verify-$N-patched.log 2>&1 && R="$R demo-patched=PASS" || R="$R demo-patched=FAIL"
+    cargo test --offline --test demo_test >$WT-$N-patched.log 2>&1 && R="$R demo-patched=PASS" || R="$R demo-patched=FAIL"
     rm -f tests/demo_test.rs
   else
     git apply $P; R="$R (no demo_test.rs)"
